@@ -12,7 +12,6 @@ import (
 
 	"github.com/tuneinsight/lattigo/v6/core/rlwe"
 	"github.com/tuneinsight/lattigo/v6/ring"
-	"github.com/tuneinsight/lattigo/v6/ring/ringqp"
 	"github.com/tuneinsight/lattigo/v6/schemes/bgv"
 	"github.com/tuneinsight/lattigo/v6/schemes/ckks"
 	"github.com/tuneinsight/lattigo/v6/utils/bignum"
@@ -511,9 +510,7 @@ func runEncDec(c *eng.Ctx, cfg pcfg) {
 	rq := p.RingQ()
 	L := p.MaxLevel()
 	c.Sample(map[string]any{"params": cfg, "area": "rlwe.Encryptor/Decryptor/KeyGenerator", "patterns": "fresh,hist-dirty"})
-	seedNo := 0
 	reseed := func(tag string) { eng.SeedCryptoRand("c09-reseed", c.CaseID, tag) }
-	_ = seedNo
 	for _, keyKind := range []string{"sk", "pk"} {
 		for _, lvl := range []int{L, 1, 0} {
 			for _, ptLvl := range []int{lvl, L} {
@@ -669,7 +666,6 @@ func runEncDec(c *eng.Ctx, cfg pcfg) {
 		}
 		return []named{{"skIn", sk}}, func() (string, error) { kg.GenEvaluationKey(sk, sk2, evk); return snapString(evk), nil }
 	}})
-	_ = ringqp.Poly{}
 }
 
 func copyRows(dst, src ring.Poly) {
